@@ -15,6 +15,7 @@ class References:
     """
     if len(self.segment_names) == 1:
       return []
+    self._validate_lists_size()
     has_undef_overlaps = self._undef_overlaps()
     retval = []
     is_circular = self.is_circular()
